@@ -17,6 +17,7 @@ type l1Action struct {
 	Key  int       `json:"key"`
 	Mode string    `json:"mode,omitempty"`
 	Call *sim.Call `json:"call,omitempty"`
+	Tx   *sim.Tx   `json:"tx,omitempty"`
 }
 
 func (a l1Action) String() string {
@@ -25,6 +26,8 @@ func (a l1Action) String() string {
 		return fmt.Sprintf("c%d.%s(k%d)", a.C, a.Mode, a.Key)
 	case "local":
 		return fmt.Sprintf("c%d.k%d.%s", a.C, a.Key, a.Call)
+	case "tx":
+		return fmt.Sprintf("c%d.k%d.tx(fail_at=%d,%d calls)", a.C, a.Key, a.Tx.FailAt, len(a.Tx.Calls))
 	}
 	return fmt.Sprintf("%s(c%d)", a.K, a.C)
 }
@@ -78,6 +81,18 @@ func genL1Action(rt *rapid.T, w *l1World, maxClients int) l1Action {
 			return l1Action{K: "sync", C: ci}
 		}
 		ki := rapid.SampledFrom(names).Draw(rt, "lkey")
+		if x >= 62 {
+			// a transaction, half of them failing (rolled back: state and identifiers restored on a
+			// client that may already have applied pulled operations)
+			tx := sim.Tx{Tag: fmt.Sprintf("t%d", rapid.IntRange(0, 999).Draw(rt, "txtag")), FailAt: -1}
+			for i, n := 0, rapid.IntRange(0, 3).Draw(rt, "txlen"); i < n; i++ {
+				tx.Calls = append(tx.Calls, genLocalCall(rt, w.keys[ki].Kind, c.dts[w.keys[ki].Name].dt, false))
+			}
+			if rapid.Bool().Draw(rt, "txfail") {
+				tx.FailAt = rapid.IntRange(0, len(tx.Calls)).Draw(rt, "failat")
+			}
+			return l1Action{K: "tx", C: ci, Key: ki, Tx: &tx}
+		}
 		call := genLocalCall(rt, w.keys[ki].Kind, c.dts[w.keys[ki].Name].dt, false)
 		return l1Action{K: "local", C: ci, Key: ki, Call: &call}
 	case x < 93:
@@ -140,6 +155,21 @@ func (w *l1World) applyL1(a l1Action) error {
 		}
 		if !d.entered {
 			w.labels["local-op-before-first-sync(creator)"] = true
+		}
+	case "tx":
+		c := w.clients[a.C]
+		d := c.dts[w.keys[a.Key].Name]
+		_, txErr, pan := sim.ExecTx(d.key.Kind, d.dt, *a.Tx)
+		if pan != nil {
+			return fmt.Errorf("transaction panicked: %v", pan)
+		}
+		if txErr != nil {
+			w.labels["failed-transaction"] = true
+			if d.entered {
+				w.labels["failed-transaction-on-synced-client"] = true
+			}
+		} else {
+			w.labels["committed-transaction"] = true
 		}
 	case "sync":
 		c := w.clients[a.C]
